@@ -14,6 +14,8 @@ Results are appended to /verif/seeded/results.jsonl and printed as a table."""
 import sys, os, subprocess, json, time, threading, queue, glob
 ROOT = f'/tmp/mmseed-{os.getpid()}'  # one scratch root per invocation: concurrent runs must not share slots
 SEEDED = '/verif/seeded'
+SCALE = None  # --scale F: run the checks with VERIF_SCALE=F (fraction of the quick case counts)
+NEUTRAL = False  # --neutral: behaviour-preserving refactorings under /verif/neutral; every check must stay silent
 ENV = dict(os.environ, CARGO_NET_OFFLINE='true', RUST_BACKTRACE='0')
 
 def sh(cmd, cwd=None, env=None, timeout=7200):
@@ -35,9 +37,9 @@ def run_one(sid, d, props, tier, confirm):
     meta = json.load(open(f'{sd}/meta.json'))
     res = dict(id=sid, prop=meta['property'], t=time.strftime('%H:%M:%S'), tier=tier)
     env = dict(ENV, CARGO_TARGET_DIR=f'{d}/repo-target')
-    demo_cmd = meta.get('demo_cmd', 'cargo test --offline --test seed_demo')
+    demo_cmd = meta.get('demo_cmd', 'cargo test --offline --test neutral_demo' if NEUTRAL else 'cargo test --offline --test seed_demo')
     suite_cmd = meta.get('suite_cmd', 'cargo test --offline')
-    demos = meta.get('demo_files', {'seed_demo.rs': 'tests/seed_demo.rs'})
+    demos = meta.get('demo_files', {'neutral_demo.rs': 'tests/neutral_demo.rs'} if NEUTRAL else {'seed_demo.rs': 'tests/seed_demo.rs'})
     def put_demo():
         for src, dst in demos.items():
             os.makedirs(os.path.dirname(f'{d}/repo/{dst}'), exist_ok=True)
@@ -61,12 +63,18 @@ def run_one(sid, d, props, tier, confirm):
             res['status'] = 'suite-fails'; res['detail'] = out[-800:]; return res
         put_demo()
         rc, out = sh(demo_cmd, cwd=f'{d}/repo', env=env)
-        res['demo_with_patch'] = 'fail' if rc != 0 else 'PASSES'
+        res['demo_with_patch'] = ('pass' if rc == 0 else 'FAILS') if NEUTRAL else ('fail' if rc != 0 else 'PASSES')
+        if NEUTRAL and rc != 0:
+            res['detail'] = out[-800:]
+        if NEUTRAL:
+            rc2, out2 = sh(suite_cmd + ' --release 2>&1 | tail -n 40', cwd=f'{d}/repo', env=env)
+            res['suite_release'] = 'pass' if ('test result: FAILED' not in out2 and 'test result: ok' in out2) else 'FAIL'
         for dst in demos.values():
             try: os.remove(f'{d}/repo/{dst}')
             except OSError: pass
     env2 = dict(ENV)
     env2.pop('VERIF_DIR', None)
+    if SCALE: env2['VERIF_SCALE'] = SCALE
     fired, incon, details, secs = [], [], {}, {}
     for p in props:
         t0 = time.time()
@@ -83,6 +91,7 @@ def run_one(sid, d, props, tier, confirm):
 
 def main():
     args = sys.argv[1:]
+    global SCALE
     j, props_sel, tier, confirm = 4, 'target', 'quick', True
     ids = []
     i = 0
@@ -91,6 +100,10 @@ def main():
         elif args[i] == '--props': props_sel = args[i+1]; i += 2
         elif args[i] == '--tier': tier = args[i+1]; i += 2
         elif args[i] == '--no-confirm': confirm = False; i += 1
+        elif args[i] == '--scale': SCALE = args[i+1]; i += 2
+        elif args[i] == '--neutral':
+            global SEEDED, NEUTRAL
+            SEEDED, NEUTRAL = '/verif/neutral', True; props_sel = 'all'; i += 1
         else: ids.append(args[i]); i += 1
     allp = [f'C{n:02d}' for n in range(1, 21)]
     every = sorted(os.path.basename(os.path.dirname(p)) for p in glob.glob(f'{SEEDED}/*/meta.json'))
@@ -109,6 +122,9 @@ def main():
             except Exception as e: r = dict(id=s, status='error', detail=str(e))
             with lock:
                 with open(f'{SEEDED}/results.jsonl', 'a') as f: f.write(json.dumps(r) + '\n')
+                if NEUTRAL and r.get('status') == 'ran':
+                    print(f"{s:32s} {'SILENT' if not r['fired'] else 'ALARM'} suite={r.get('suite_with_patch','-')} release={r.get('suite_release','-')} demo={r.get('demo_with_patch','-')} fired={','.join(r['fired'])} incon={','.join(r['inconclusive'])}", flush=True)
+                    continue
                 ok = ''
                 if r.get('status') == 'ran': ok = 'CAUGHT' if tgt in r['fired'] else ('caught-by-other' if r['fired'] else 'MISSED')
                 print(f"{s:32s} {r.get('status'):10s} {ok:16s} demo0={r.get('demo_unchanged','-')} suite={r.get('suite_with_patch','-')} demo1={r.get('demo_with_patch','-')} fired={','.join(r.get('fired', []))} incon={','.join(r.get('inconclusive', []))}", flush=True)
